@@ -9,7 +9,8 @@ func init() {
 	checks["C07"] = &checkDef{
 		Level: "model_checking",
 		Run: func(c *runCtx) (map[string]interface{}, []string, []violation, error) {
-			opts := map[string]interface{}{"import": true, "templates": []string{"e"}, "patterns": []string{"E", "R"}, "max_reorg": 2, "max_queue": 2, "max_height": 6, "no_b": true}
+			opts := map[string]interface{}{"import": true, "templates": []string{"e"}, "patterns": []string{"E", "R"}, "max_reorg": 2, "max_queue": 2, "max_height": 6, "no_b": true,
+				"gap": 3, "c_blocks": []string{"pc0", "pc2", "pc4", "sc"}}
 			depth, dl := 6, 170*time.Second
 			if c.Tier == "thorough" {
 				opts["max_reorg"] = 3
@@ -24,9 +25,9 @@ func init() {
 			if err != nil {
 				return nil, nil, nil, err
 			}
-			cov := bfsCoverage(out, "explicit-state BFS over histories of {deliver, extend(empty, pay address 0/1/2 of the external wallet C, spend C's oldest coin), reorg(depth<=2/3, empty/re-mine), "+
+			cov := bfsCoverage(out, "explicit-state BFS over histories of {deliver, extend(empty, pay address 0/2/4 of the external wallet C (gap limit 3, so that discovery has to slide its window), spend C's oldest coin), reorg(depth<=2/3, empty/re-mine), "+
 				"ImportWalletWithMnemonic(C) with index hint 0 or 3, ONE rescan batch of the real asyncImport (with the suspend/resume hand-shake), restart}; while the import is pending UseWallet(C) and RemoveWallet(C) must be refused; "+
-				"in every state pending batches are then run to completion (the follower delivering between batches) and the restored wallet's addresses-with-history, coins, balances and the other wallet's ledger are compared with the reference ledger, "+
+				"the worker's re-queue decision is modelled from what each batch returns; in every state pending batches are then run to completion (the follower delivering between batches) and the restored wallet's addresses-with-history, coins, balances and the other wallet's ledger are compared with the reference ledger, "+
 				"i.e. with what a wallet that watched the chain live reports (C01); distinct_nontrivial = distinct completed observations")
 			cov["bounds"] = map[string]interface{}{"depth": depth, "opts": opts}
 			// long chains: the rescan spans several 1000-block batches
@@ -36,6 +37,17 @@ func init() {
 				return nil, nil, nil, err
 			}
 			cov["multi_batch_pass"] = map[string]interface{}{"prefix_blocks": 1003, "states": long.States, "transitions": long.Transitions, "depth_completed": long.DepthDone, "exhaustive": long.Exhaustive}
+			// a rescan interrupted between its two batches by reorganisations that reach below the
+			// rescan cursor: starts from the state after the first batch (cursor at height 1000,
+			// tip at 1002 with a payment to the restored wallet at 1001)
+			mid, err := runBFS(c.Bin, c.Scratch, bfsCfg{Model: "c01", Opts: map[string]interface{}{"import": true, "templates": []string{"e"}, "patterns": []string{"R", "E"}, "c_blocks": []string{"pc1"},
+				"max_reorg": 3, "max_queue": 4, "max_height": 9, "no_b": true, "prefix": 998,
+				"setup": []string{"x.e", "d", "x.e", "d", "x.pc0", "d", "x.e", "d", "i.m0", "i.s"}}, Depth: map[bool]int{false: 3, true: 5}[c.Tier == "thorough"], Workers: c.Workers, Deadline: dl, Recycle: 40, OpenTags: openTags(c)})
+			if err != nil {
+				return nil, nil, nil, err
+			}
+			cov["reorg_between_batches_pass"] = map[string]interface{}{"prefix_blocks": 998, "states": mid.States, "transitions": mid.Transitions, "depth_completed": mid.DepthDone, "exhaustive": mid.Exhaustive}
+			long.Violations = append(long.Violations, mid.Violations...)
 			return cov, []string{
 				"the original wallet is represented by the reference ledger, which the C01 check shows equal to what a live wallet reports",
 				"rescan batches are atomic steps executed by the real asyncImport; finer interleavings of its suspend/resume hand-shake belong to C20",
@@ -44,7 +56,7 @@ func init() {
 		},
 		Replay: func(c *runCtx, file string) error {
 			return replayBFS(c, "c01", file, func(t string) interface{} {
-				return map[string]interface{}{"import": true, "templates": []string{"e", "pa"}, "patterns": []string{"E", "R"}, "max_reorg": 3, "max_queue": 3, "max_height": 8, "no_b": true}
+				return map[string]interface{}{"import": true, "templates": []string{"e", "pa"}, "patterns": []string{"E", "R"}, "max_reorg": 3, "max_queue": 3, "max_height": 8, "no_b": true, "gap": 3, "c_blocks": []string{"pc0", "pc2", "pc4", "sc"}}
 			})
 		},
 	}
